@@ -369,14 +369,5 @@ def replay(v):
     if "config" not in c:
         run_one(a, dict(c, expect_build_error="RuntimeError" if c["carrier"] == "sub_flagged_inner" else None))
         return a.violations, None
-    d, ns, src = build(prog, c["config"], c["is_async"])
-    args = tuple(c["args"])
-    if c["is_async"]:
-        async def op():
-            return await d(*args)
-    else:
-        def op():
-            return d(*args)
-    res = H.run_controlled(op, prefix=tuple(v["prefix"]), is_async=c["is_async"])
-    compare(a, c, prog, args, res, ir.ref_eval(prog, args), src)
-    return a.violations, res.trace
+    from ..prog import replay_built
+    return replay_built(a, v)
